@@ -6,6 +6,7 @@ import (
 	"go/types"
 	"math/big"
 	"path/filepath"
+	"regexp"
 	"strconv"
 	"strings"
 	"time"
@@ -715,6 +716,14 @@ func init() {
 		// ---- regexp (over-approximation: any verdict) ----
 		"regexp.MustCompile": func(m *Machine, a []Val) Val { return Ptr{C: m.newCell(Opaque{Name: "regexp"})} },
 		"regexp.MatchString": func(m *Machine, a []Val) Val {
+			p, s := a[0].(Str), a[1].(Str)
+			if p.IsC() && s.IsC() {
+				ok, err := regexp.MatchString(p.C, s.C)
+				if err != nil {
+					return Tuple{CB(false), m.newErr("regexp")}
+				}
+				return Tuple{CB(ok), nilErr()}
+			}
 			return Tuple{m.ex.NondetBool("regexp_match"), nilErr()}
 		},
 		"(*regexp.Regexp).MatchString": func(m *Machine, a []Val) Val { return m.ex.NondetBool("regexp_match") },
